@@ -710,7 +710,7 @@ func (c *Ctx) c14Exit() {
 	}
 	for _, spec := range [][3]string{{"/pkg/runner", "", "Run"}, {"/pkg/parser", "Parser", "Parse"}, {"/pkg/builder", "FunctionBuilder", "CreateFunctions"},
 		{"/pkg/builder", "FunctionBuilder", "CreateFunction"}, {"/pkg/parser", "Parser", "GenerateBaseCode"}, {"/pkg/generator", "Generator", "Generate"}, {"/pkg/parser", "", "NewParser"},
-		{"/pkg/parser", "Parser", "parseMethod"}, {"/pkg/builder", "assignmentBuilder", "structToStruct"}} {
+		{"/pkg/parser", "Parser", "parseMethod"}, {"/pkg/builder", "assignmentBuilder", "structToStruct"}, {"/pkg/parser", "Parser", "findConvergenEntries"}} {
 		var fn *ssa.Function
 		if spec[1] == "" {
 			fn = c.MustFunc("C14-9", spec[0], spec[2])
@@ -973,4 +973,30 @@ func (c *Ctx) c14Diag() {
 		r.Check("C14-10", sprintf("%s:Errorf%d", FnKey(s.Fn), n), c.Pos(s.Pos()), okF && okP, "diagnostic does not start with the position of the offending item: format "+f.String())
 	}
 	r.Floor("C14-10", "Errorf sites in parser/builder", n, 40)
+	c.positionedWarnings("C14-16")
+}
+
+// positionedWarnings: every warning on stderr starts with a resolved position.
+func (c *Ctx) positionedWarnings(rule string) {
+	r := c.R
+	r.Rule(rule, "every logger.Warnf (diagnostic on stderr) has a constant format starting with \"%v: \" whose first operand is a token.Position – the resolved file:line:col, never a raw token.Pos (an offset into the shared file set that depends on the order in which the loader registered the files)")
+	n := 0
+	perFn := map[*ssa.Function]int{}
+	for _, s := range c.CallsTo(fnWarnf) {
+		if p := pkgOf(s.Fn); p != nil && p.Path() == mod+"/pkg/logger" {
+			continue
+		}
+		n++
+		perFn[s.Fn]++
+		f := c.O.Of(s.Args()[0])
+		first := c.varargAt(s.Args()[1], 0)
+		okF := f.Kind == "const" && strings.HasPrefix(f.Name, `"%v: `)
+		okP := first != nil && first.Type != nil && first.Type.String() == "go/token.Position"
+		got := "<none>"
+		if first != nil && first.Type != nil {
+			got = first.Type.String()
+		}
+		r.Check(rule, sprintf("%s:Warnf%d", FnKey(s.Fn), perFn[s.Fn]), c.Pos(s.Pos()), okF && okP, "a warning does not start with a resolved position: format "+f.String()+", first operand of type "+got)
+	}
+	r.Floor(rule, "Warnf sites", n, 4)
 }
